@@ -18,6 +18,7 @@ import DtailModel.Model.Auth
 import DtailModel.Model.KnownHosts
 import DtailModel.Model.Perm
 import DtailModel.Model.Aggregate
+import DtailModel.Model.Outfile
 open Dtail
 
 structure Res where
@@ -574,6 +575,116 @@ def opC05Agg : List String → Res
     | _, _ => bad
   | _ => bad
 
+/-! C15 -/
+
+structure GroupSpec where
+  key : Bytes
+  samples : Nat
+  cols : List (Bytes × Option Int × Option Bytes)
+
+def parseGroups (s : String) : Option (List GroupSpec) :=
+  if s = "-" then some [] else
+  (s.splitOn ";").mapM fun gs => match gs.splitOn ":" with
+    | [k, n, cols] => do
+      let k ← unhex k
+      let n ← n.toNat?
+      let cols ← (if cols = "" then some [] else (cols.splitOn ",").mapM fun c => match c.splitOn "=" with
+        | [st, v] => match v.splitOn "|" with
+          | [f, sv] => do
+            let st ← unhex st
+            let sv ← if sv = "" then some none else (unhex sv).map some
+            pure (st, f.toInt?, sv)
+          | _ => none
+        | _ => none)
+      pure ⟨k, n, cols⟩
+    | _ => none
+
+/-- `resultSelect` on integer-valued aggregates (avg is not generated) -/
+def renderValue (op : AggOp) (g : GroupSpec) (storage : Bytes) : Bytes × Int :=
+  let col := (g.cols.find? (·.1 == storage)).map (·.2)
+  let f : Int := (col.bind (·.1)).getD 0
+  let sv : Bytes := (col.bind (·.2)).getD []
+  match op with
+  | .count => (str (toString f), f)
+  | .last => (sv, ((atoi sv).getD 0))
+  | _ => (fmtF f, f)
+
+def insertSorted (desc : Bool) (x : Int × List Bytes) : List (Int × List Bytes) → List (Int × List Bytes)
+  | [] => [x]
+  | y :: rest => if (if desc then x.1 > y.1 else x.1 < y.1) then x :: y :: rest else y :: insertSorted desc x rest
+
+def outReqOf (q : Query) (raw : Bytes) (groups : List GroupSpec) (final : Bool) : Option OutReq :=
+  match q.outfile with
+  | none => none
+  | some (path, app) =>
+    let rows := groups.map fun g =>
+      let vals := q.sel.map fun sc => renderValue sc.op g sc.storage
+      let key : Int := ((q.sel.zip vals).find? (fun p => p.1.storage == q.orderBy)).map (·.2.2) |>.getD 0
+      (key, vals.map (·.1))
+    -- stable sort by the order key (descending for `order`, ascending for `rorder`); keys are distinct in generated cases
+    let rows := if q.orderBy = [] then rows else rows.foldr (insertSorted (!q.reverse)) []
+    some { path := path, append := app, rawQuery := raw, header := q.sel.map (·.storage),
+           rows := rows.map (·.2), limit := q.limit, final := final }
+
+def relName (path p : Bytes) : Bytes :=
+  -- paths are reported relative to the outfile's directory
+  let dir := (path.reverse.dropWhile (· ≠ 47)).reverse
+  if hasPrefix dir p then p.drop dir.length else p
+
+def renderOp (path : Bytes) : FOp → String
+  | .openTrunc p => "T:" ++ hexOf (relName path p)
+  | .openAppend p => "A:" ++ hexOf (relName path p)
+  | .write p d => "W:" ++ hexOf (relName path p) ++ ":" ++ hexOf d
+  | .rename s d => "R:" ++ hexOf (relName path s) ++ ">" ++ hexOf (relName path d)
+
+def fileStr (fs : FS) (p : Bytes) : String := match fsGet fs p with | none => "none" | some c => if c.isEmpty then "-" else hexOf c
+
+def stateStr (fs : FS) (path : Bytes) : String :=
+  s!"out={fileStr fs path};tmp={fileStr fs (path ++ TMP)};query={fileStr fs (path ++ QUERYEXT)};qtmp={fileStr fs (path ++ QUERYEXT ++ TMP)}"
+
+def opC15Write : List String → Res
+  | qh :: groups :: final :: pre :: kill :: rest => match unhex qh, parseGroups groups with
+    | some qt, some gs =>
+      -- the harness substitutes the real path for @O; the model uses a fixed one in the same shape
+      let path := b!"/d/out.csv"
+      let raw := match splitOnSub qt (b!"@O") with
+        | [] => []
+        | p0 :: more => more.foldl (fun acc x => acc ++ path ++ x) p0
+      match newQuery intOracle raw with
+      | .ok (some q) => match outReqOf q raw gs (final = "1") with
+        | some r =>
+          let fs0 : FS := if pre = "none" then [] else [(path, (unhex pre).getD [])]
+          let ops := writeResultOps fs0 r
+          let old := fsGet fs0 path
+          let okState (fs : FS) : Bool :=
+            if r.append then
+              -- earlier bytes are never altered
+              (match old with | none => true | some o => o.isPrefixOf ((fsGet fs path).getD []))
+            else (fsGet fs path == old ∨ (fsGet fs path == some (completeResult r) ∧ fsGet fs (path ++ QUERYEXT) == some raw))
+          if kill = "0" then
+            let fs := applyOps fs0 ops
+            let appendSpec : Bytes := (old.getD []) ++ (if (old.getD []).isEmpty then csvLine r.header else []) ++ (limitedRows r).flatMap csvLine
+            let specOut : String :=
+              if r.append then hexOf appendSpec
+              else if r.final then hexOf (completeResult r) else (match old with | none => "none" | some o => if o.isEmpty then "-" else hexOf o)
+            { m := s!"ops={joinWith " " (ops.map (renderOp path))};{stateStr fs path}",
+              s := specOut,
+              t := joinWith "," ((if r.append then ["append"] else ["replace"]) ++ (if r.final then ["final"] else ["interim"])
+                ++ (if old.isSome then ["existing"] else []) ++ (if r.rows.length > 1 then ["rows"] else [])
+                ++ (if r.limit ≥ 0 then ["limit"] else [])) }
+          else
+            -- kill run: the observed state must be the state after some prefix of the operations
+            let observed := rest.headD "-"
+            let states := (List.range (ops.length + 1)).map fun k => applyOps fs0 (ops.take k)
+            let hit := states.find? (fun fs => stateStr fs path == observed)
+            { m := match hit with | some _ => "killed;" ++ observed | none => "killed;NOT-A-PREFIX-STATE",
+              s := match hit with | some fs => if okState fs then "killed;" ++ observed else "killed;PROPERTY-VIOLATED" | none => "-",
+              t := "kill" }
+        | none => { m := "no-outfile" }
+      | _ => { m := "query-error" }
+    | _, _ => bad
+  | _ => bad
+
 def dispatch (line : String) : Res :=
   match (line.splitOn " ").filter (· ≠ "") with
   | "c01.reader" :: a => opC01Reader a
@@ -591,6 +702,7 @@ def dispatch (line : String) : Res :=
   | "c10.run" :: a => opC10Run a
   | "c12.roundtrip" :: a => opC12Roundtrip a
   | "c11.parse" :: a => opC11Parse a
+  | "c15.write" :: a => opC15Write a
   | "c16.colorfy" :: a => opC16Colorfy a
   | "c16.write" :: a => opC16Write a
   | "c17.trust" :: a => opC17Trust a
